@@ -244,6 +244,16 @@ def check_sizeof(rep, st):
             if c.status == 'err' or got == want: st['discharged'] += 1       # rejecting is allowed, a wrong size is not
             else: rep.violation('sizeof.elem.%s' % n, '`%s`: one element is %d bytes, the compiler gives %s' % (src, want, got if c.status == 'ok' else (c.status, c.msg)), dict(kind='mir-const', source=src, expect=want, got=[c.status, got]))
             continue
+        # the same object measured inside a statement (the generator has its own sizeof) and inside a local initialiser
+        for fk, tpl in (('stmt', '; char szr; void main() { szr = sizeof(%s); }'), ('stmt+1', '; char szr; void main() { szr = sizeof(%s) + 1; }'), ('local-init', '; char szr; void main() { char l = sizeof(%s); szr = l; }')):
+            src = d + tpl % n
+            c = common.compile_one(src); st['replays'] += 1; st['obligations'] += 1
+            got = None; w2 = (want + 1 if fk == 'stmt+1' else want) & 0xff
+            if c.status == 'ok':
+                m = re.search(r'LDA #(\d+)\s*\n\s*STA (?:szr|main_\w*l\b)', '\n'.join(c.funcs['main']['lines']))
+                got = int(m.group(1)) if m else None
+            if c.status == 'err' or got == w2: st['discharged'] += 1
+            else: rep.violation('sizeof.%s.%s' % (fk, d.replace(' ', '_')), '`%s`: expected %d, the compiler gives %s' % (src, w2, got if c.status == 'ok' else (c.status, c.msg)), dict(kind='mir-const', source=src, expect=w2, got=[c.status, c.msg, c.funcs.get('main', {}).get('lines') if c.status == 'ok' else None]))
         for form in ('const int k = sizeof(%s);', 'const int k = sizeof(%s) + 0;'):
             src = d + '; ' + form % n
             out = replay_const(src); st['replays'] += 1; st['obligations'] += 1
